@@ -72,6 +72,16 @@ def cases(draw):
                 "params": {"r": draw(st.sampled_from([4.0, 4.5, 6.0])), "eps": w / 4.0, "itersLimit": 100000},
                 "class": "unconditional", "very_long": True}
         return case
+    if draw(st.integers(0, 11)) == 5:
+        # a steep multi-extremal 1-D zigzag (equidistant nodes, several wells of different depth) whose first trials
+        # are requested as ONE large batch; M grows many times inside the batch
+        k = draw(st.integers(7, 12))
+        obj = {"family": "pwl1", "t": [i / k for i in range(k + 1)],
+               "v": [draw(st.floats(-3, 3, allow_nan=False)) for _ in range(k + 1)]}
+        return {"recipe": {"n": 1, "lower": [0.0], "upper": [1.0], "density": 10, "obj": obj},
+                "params": {"r": draw(st.sampled_from([2.5, 3.0, 4.0])),
+                           "eps": draw(st.sampled_from([0.002, 0.005, 0.01, 0.02, 0.03])), "itersLimit": 5000},
+                "class": "conditional", "batches": [draw(st.integers(12, 60))], "zigzag": True}
     # refineSolution=True: the value Solve returns is the refined one; it may only be lower (C05), the bound stays
     case["refine"] = draw(st.integers(0, 3)) == 0
     if "first_limit" not in case and draw(st.integers(0, 4)) == 0:
@@ -116,6 +126,8 @@ def body(case):
         classes.append("refineSolution")
     if case.get("very_long"):
         classes.append("very-long-run")
+    if case.get("zigzag"):
+        classes.append("zigzag-one-large-batch")
     if len(hist) >= p["itersLimit"]:
         classes.append("inconclusive:budget")
         return False, classes
